@@ -252,7 +252,8 @@ func runC02(c *Ctx) {
 		}
 		if c.Anchor("C02.R6", "HistoryOptions parameter of historySingleFlight", optsT != nil) {
 			var written []string
-			for _, ci := range CallsIn(sf, false, w.calleeIs("Builder.WriteString")) {
+			// (the key may be built in historySingleFlight itself or in a helper it calls)
+			for _, ci := range w.Deep(sf, 2).Calls(w.calleeIs("Builder.WriteString")) {
 				written = append(written, D(ci.Common().Args[1]))
 			}
 			leaves := leafFieldPaths(optsT, "", 0)
@@ -279,7 +280,7 @@ func runC02(c *Ctx) {
 			continue
 		}
 		k := 0
-		for _, ci := range CallsIn(fn, false, w.calleeIs("Builder.WriteString")) {
+		for _, ci := range w.Deep(fn, 2).Calls(w.calleeIs("Builder.WriteString")) {
 			arg := ci.Common().Args[1]
 			if _, isLit := constStrOf(arg); isLit {
 				continue
